@@ -1,3 +1,4 @@
 pub mod catalog;
+pub mod dpsql;
 pub mod sql;
 pub mod types;
